@@ -111,7 +111,7 @@ def main(chk):
     native.build(); native.build('release')
     q = chk.tier == 'quick'
     ns = (1, 2, 3, 4) if q else (1, 2, 3, 4, 5)
-    to = 90 if q else 900
+    to = 90 if q else 300
     jobs = []
     for name in LAG:
         mode = 'bar' if name in ('CCI', 'MFI') else 'scalar'
